@@ -1202,6 +1202,10 @@ class Interp:
         if o is None:
             raise Raised(f"AttributeError: 'NoneType' object has no "
                          f"attribute '{name}'")
+        if isinstance(o, (Poly, Rat)) and name == "copy":
+            # a symbolic value stands for an array of such values: its copy
+            # has the same entries
+            return PyFunc(lambda a, k, n, o=o: o)
         raise Unsupported(f"attribute .{name} of {type(o).__name__}", node)
 
     def class_attr(self, cls: ClassInfo, name, obj, node):
@@ -1546,6 +1550,10 @@ class Interp:
         raise Unsupported(f"call of external {name}", node)
 
     def numpy(self, fn, args, kwargs, node):
+        if fn in ("asarray", "asanyarray", "ascontiguousarray") and args \
+                and getattr(args[0], "skv_isarray", False) \
+                and not isinstance(args[0], Arr):
+            return args[0]         # an array stub is an array already
         if fn in ("result_type", "promote_types", "common_type"):
             return "<dtype>"       # exact values carry no storage type
         if fn in ("ndim", "isscalar") and args and isinstance(
